@@ -832,6 +832,67 @@ class FunctionAnalysis:
                     c = self.cell_of_ptr(i["ptr"])
                     if c is not None:
                         used.add(c)
+        # a cell counted up while another is counted down (`*dst++ = ..; remaining--`): their SUM is the invariant.  x holds a constant vx on entry;
+        # y is known equal to a form L over values the loop does not change (or just lies in an interval):  x + y - L <= vx  and  -(x + y - L) <= -vx
+        sign = {}
+        for b in body:
+            for i in self.fn.bmap[b].insts:
+                if i.op == "store":
+                    c = self.cell_of_ptr(i["ptr"])
+                    if c is None:
+                        continue
+                    # direction of the update, read off its shape: cell = cell +/- constant (pointer: one of its own elements further)
+                    sg = None
+                    v = self.fn.resolve(rules.strip_casts(self.fn, i["val"]))
+                    if v is not None and v.op == "getelementptr" and not v["idx"] and v["off"] != 0:
+                        src_ = self.fn.resolve(rules.strip_casts(self.fn, v["base"]))
+                        if src_ is not None and src_.op == "load" and self.cell_of_ptr(src_["ptr"]) == c:
+                            sg = 1 if v["off"] > 0 else -1
+                    elif v is not None and v.op in ("add", "sub"):
+                        k_ = rules.const_of(self.fn, v["b"])
+                        src_ = self.fn.resolve(rules.strip_casts(self.fn, v["a"]))
+                        if k_ and src_ is not None and src_.op == "load" and self.cell_of_ptr(src_["ptr"]) == c:
+                            if v.op == "sub":
+                                k_ = -k_
+                            sg = 1 if k_ > 0 else -1
+                    sign[c] = sg if sign.get(c, sg) == sg else 0
+        def entry_forms(c):
+            out_ = []
+            L = self._equal_form(st, ("cell",) + c)
+            if L is not None and not any(a_[0] == "cell" and a_[1:] in written for a_ in L.t):
+                out_.append(L)
+            v = st.cells.get(c)
+            if v is not None and v[0] == v[1]:
+                out_.append(LF(v[0]))
+            return out_
+        for x in written:
+            if sign.get(x) not in (1, -1):
+                continue
+            for y in written:
+                if y == x or sign.get(y) != -sign[x]:
+                    continue
+                ax, ay = ("cell",) + x, ("cell",) + y
+                fx, fy = entry_forms(x), entry_forms(y)
+                if not fx:
+                    continue
+                Lx = fx[-1]
+                if fy:
+                    if str(x) < str(y):
+                        for Lx_ in fx:
+                            for Ly in fy:
+                                e = LF(0, {ax: 1, ay: 1}).add(Lx_, -1).add(Ly, -1)
+                                if len(e.t) <= 6:
+                                    st.facts[e.key()] = min(st.facts.get(e.key(), INF), -e.k)
+                                    e2 = e.scale(-1)
+                                    st.facts[e2.key()] = min(st.facts.get(e2.key(), INF), -e2.k)
+                elif not Lx.t:
+                    vy = st.cells.get(y, self.cell_type_range(y))
+                    if vy[1] < INF:
+                        k = LF(0, {ax: 1, ay: 1}).key()
+                        st.facts[k] = min(st.facts.get(k, INF), Lx.k + vy[1])
+                    if vy[0] > -INF:
+                        k = LF(0, {ax: -1, ay: -1}).key()
+                        st.facts[k] = min(st.facts.get(k, INF), -(Lx.k + vy[0]))
         for x in written:
             vx = st.cells.get(x)
             if vx is None or vx[0] != vx[1]:
@@ -916,6 +977,11 @@ class FunctionAnalysis:
                 changed_any = False
                 for gk, j in groups.items():
                     old = head_state.get((bid, gk))
+                    if old is not None and gk and not gk[0]:
+                        # a later entry into the loop from outside (another path to the loop): its own entry facts, so that what they have in common
+                        # with the first entry's survives the join
+                        j = j.copy()
+                        self._entry_difference_facts(bid, j)
                     if old is not None:
                         visits[(bid, gk)] += 1
                         j2 = join(old, j)
@@ -1218,6 +1284,8 @@ def _array_object(P, fn, o):
         a = fn.insts[o["id"]]
         if a.op == "alloca" and "size" in a.d and a["aty"].startswith("["):
             return ("L", a.id), ("local", a.get("var", "%%%d" % a.id), a["size"])
+        if a.op == "alloca" and "count" in a.d:
+            return ("L", a.id), ("vla", a.get("var", "%%%d" % a.id), a)
     return None
 
 
@@ -1360,7 +1428,15 @@ def check_gep(fa, gep, base):
             if sp is None:
                 return False, "the pointer is not an offset from its array"
             iv = fa.iv_lf(sp[1], st)
-            if iv[0] < 0 or iv[1] + esz > base[2]:
+            if base[0] == "vla":
+                a = base[2]
+                cnt = fa.lf(a["count"], st)
+                if cnt is None:
+                    return False, "VLA size is not linear"
+                div = fa.iv_lf(sp[1].add(cnt.scale(a["elsize"]), -1), st)
+                if iv[0] < 0 or div[1] > -esz:
+                    worst = ((iv[0], div[1]), "size-relative", st)
+            elif iv[0] < 0 or iv[1] + esz > base[2]:
                 worst = (iv, base[2], st)
         if worst:
             iv, size, st = worst
